@@ -20,7 +20,7 @@ COQ_IMPORTS = 'From VRP Require Import Base.Tac Model.Core Spec.Valid Model.Writ
 MODEL_TARGETS = ['theories/Spec/Valid.vo', 'theories/Model/Writer.vo']
 MODEL_NEEDS_IMPL = True
 SHARD = 24
-SIZES = {'quick': 360, 'thorough': 3600, 'search': 1500}
+SIZES = {'quick': 900, 'thorough': 6000, 'search': 1500}
 RULE = ('cases: generated pragmatic problems (3-10 jobs incl. multi jobs, 1-2 places with equal or different locations / durations '
         '/ tags, 1-2 windows; 1-3 vehicle types, open and closed ends, start latest, integer fixed/distance/time prices incl. 0; '
         'metric and non-metric integer matrices with zero-distance location pairs) x 3 configurations each. non-trivial = distinct '
@@ -220,6 +220,7 @@ MANIFEST_TEXT = ('Machine-checked proof (Coq, no axioms) over an executable mode
                  'generated problems x configurations; the writer model must reproduce each document exactly (stops, loads, distances, '
                  'redundant-field removal, tags, statistics).')
 MANIFEST_NOTE = ('Trusted: Coq kernel + vm_compute; JSON->Gallina rendering; harness; the tour is rebuilt from the document. Integer data => '
-                 'exact equality. Grouping into stops: invariant proved, equality with the per-stop replay validated not proved. Known '
+                 'exact equality. Grouping into stops: proved to be the forward grouping of the activities (first arrival, last departure / load, '
+                 'distance when reached); its equality with the checker\'s per-stop replay is validated on every case. Known '
                  'finding: jobTag is the tag of the first tagged place at the location, not of the place used (duration ignored).')
 MANIFEST_TECHNIQUE = 'Coq proof over executable writer model + verified replay checker run on real solver output + exact model/document diff'
